@@ -4,6 +4,7 @@ from __future__ import annotations
 
 import asyncio
 import random
+import time
 import zlib
 from pathlib import Path
 from typing import Any
@@ -25,7 +26,9 @@ LEVEL_TEXT = (
     "Exploration: generated histories of 5..60 requests (session changes, seed/key pairs with fresh seeds, resets, reads/writes/routines, "
     "tester present, DTC services, suppressed requests, arbitrary bytes) against RandomUDSServer models (seeds x parameter sets) and "
     "scripted ECUs (spontaneous session fallback, malformed, mismatching and missing replies); databases with one recording (no selector, "
-    "name, properties) and with two or three recordings written one after the other or interleaved, selected by ECU name, by integer/null "
+    "name, properties) and with two or three recordings written one after the other or interleaved (each by a DBHandler / run_meta of its own: different "
+    "target urls; the same url recorded twice; address rows left by a discovery run and labelled with ECU names before the recordings start, "
+    "plus addresses of ECUs never recorded), selected by ECU name (always when the file holds several recordings), by integer/null "
     "properties, by string properties or both. Held = every replay produced the recorded bytes (silence where none was recorded) and the "
     "same session/security level after every step."
 )
@@ -37,13 +40,17 @@ RULE = (
     "cases = (ECU model or script, history seed, database layout, selector); one case = one record/replay pair; non-trivial = the recording "
     "leaves the default state or repeats a request with another answer; distinct = distinct (history seed, layout, selector); "
     "distinct_traces = distinct (request kind, reply kind, client state) sequences; evaluations = replayed steps compared. After the first "
-    "difference of a pair the rest of that replay is not judged (it is a consequence)."
+    "difference of a pair the rest of that replay is not judged (it is a consequence). A replay difference under selection by name is keyed replay/wrong-recording-selected/... "
+    "when the file shows that a scan run points to the address row of another url than the one it was recorded against."
 )
 ASSUMPTIONS = [
     "recording uses max_retry 0 and implicit logging: one transmission and one row per request",
     "databases with several recordings are only replayed with a selector (name, properties or both); recordings of different ECUs have their own ECU name, target and property set",
     "two recordings under one ECU name are only made of an ECU whose answers are a function of (session, security level, request) and whose state the client sees completely (no suppressed requests)",
     "ecu rows and address.ecu are written by the harness with SQL (gallia has no writer for them); properties_pre is written by DBHandler.insert_scan_run_properties_pre",
+    "address rows that exist before a recording starts come from gallia's own writers: DBHandler.insert_discovery_result of a discovery run in the same file, or an earlier recording of the same url",
+    "every await on DBHandler / DBUDSServer has a 60 s wall-clock guard (such a step takes milliseconds). A DBHandler step of a recording that raises or does not return is reported as a "
+    "violation (record/...: the recording is not in the database, so it cannot be replayed) and that recording is not replayed; only connect / insert_run_meta failing on a fresh file is a harness error",
     "'clean' histories never provoke silence while the client is outside the default state and never suppress a session change or reset; 'any' histories do",
 ]
 EXHAUSTIVE = {"quick": False, "thorough": False}
@@ -85,6 +92,10 @@ def required_reach(tier: str) -> dict[str, int]:
         "hist.suppressed-request": 50 * k, "hist.write-or-routine": 200 * k, "step.non-default-session": 1000 * k, "step.security-level": 100 * k,
         "select.none": 100 * k, "select.name": 40 * k, "select.int-properties": 40 * k, "select.string-properties": 20 * k, "select.name+properties": 20 * k,
         "db.two-or-more-recordings": 40 * k, "db.interleaved-recordings": 10 * k, "db.same-ecu-recorded-twice": 12 * k, "db.other-recording-shares-requests": 30 * k,
+        # the situations in which DBHandler.insert_scan_run meets an address row it did not create itself (measured on the file just before the call)
+        "db.scan-run-starts.new-address-row": 100 * k, "db.scan-run-starts.address-row-already-exists.same-url-recorded-before": 12 * k,
+        "db.scan-run-starts.address-row-already-exists.from-discovery-run-labelled-up-front": 30 * k,
+        "replay-by-name.same-url-recorded-before": 12 * k, "replay-by-name.address-from-discovery-run-labelled-up-front": 30 * k,
         "scripted.fallback": 10 * k, "scripted.malformed-reply": 10 * k, "scripted.mismatching-reply": 10 * k, "#model:": 40,
     }
 
@@ -253,6 +264,14 @@ class Recording:
         self.lost: list[str] = []
         self.scan_run: int | None = None
         self.info: dict[str, Any] = {}
+        self.first_on_file = False  # no other handler touched the file before this recording
+        self.address_before: dict[str, Any] | None = None  # the target's address row just before insert_scan_run
+        self.failed: dh.HandlerStep | None = None  # a DBHandler step of this recording raised / did not return
+        self.attached_url: str | None = None  # url of the address row the scan_run row points to (read back after the recordings)
+        self.foreign_runs: list[tuple[int, str]] = []  # (scan run, address situation) of recordings of OTHER targets that point to this target's address row
+
+    def address_situation(self) -> str:
+        return "address-row-already-exists" if (self.address_before or {}).get("exists") else "new-address-row"
 
 
 class Recorder:
@@ -268,10 +287,34 @@ class Recorder:
         self.driver: Any = None
         self.script: ScriptedECU | None = None
 
-    async def start(self) -> None:
-        self.handler = await dh.open_handler(self.path, self.rec.target, script="vf.c12.record")
-        self.rec.scan_run = self.handler.scan_run
-        await self.handler.insert_scan_run_properties_pre(make_props(self.rec.props))
+    def look_at_address(self) -> None:
+        """the target's address row as the file shows it just before insert_scan_run (separate sqlite3 connection, SELECT only)"""
+        rows = dh.sql(self.path, "SELECT a.id, (SELECT name FROM ecu e WHERE e.id = a.ecu), (SELECT count(*) FROM scan_run s WHERE s.address = a.id) "
+                                 "FROM address a WHERE a.url = ?", (self.rec.target,))
+        self.rec.address_before = {"exists": bool(rows), "id": rows[0][0] if rows else None, "ecu_label": rows[0][1] if rows else None,
+                                   "earlier_scan_runs": rows[0][2] if rows else 0}
+
+    async def start(self) -> bool:
+        """Script._db_insert_run_meta + UDSScanner.setup; False = gallia's database code refused (self.rec.failed says where)"""
+        self.rec.first_on_file = not self.path.exists()
+        try:
+            self.handler = await dh.open_handler(self.path, self.rec.target, script="vf.c12.record", before_scan_run=self.look_at_address)
+            self.rec.scan_run = self.handler.scan_run
+            try:
+                await dh.guarded(self.handler.insert_scan_run_properties_pre(make_props(self.rec.props)), "insert_scan_run_properties_pre")
+            except BaseException:
+                await dh.force_close(self.handler)
+                raise
+        except dh.HandlerStep as e:
+            if self.rec.first_on_file and e.step in ("connect", "insert_run_meta"):
+                raise  # nothing of the layout is involved yet: indistinguishable from a broken scratch directory -> harness error
+            self.rec.failed = e
+            self.handler = None
+            return False
+        await self._start_ecu()
+        return True
+
+    async def _start_ecu(self) -> None:
         if self.ecu_kind[0] == "rng":
             self.driver = vecu.Driver(self.ecu_kind[1], vecu.PARAM_SETS[self.ecu_kind[2]], vecu.all_switches())
             await self.driver.setup()
@@ -287,7 +330,7 @@ class Recorder:
         self.ecu = dh.make_ecu(self.tr, self.handler, 0)
 
     async def step(self) -> bool:
-        if len(self.rec.requests) >= self.length:
+        if self.rec.failed is not None or len(self.rec.requests) >= self.length:
             return False
         from gallia.services.uds.core import service
 
@@ -298,10 +341,13 @@ class Recorder:
             offered = {int(k): v for k, v in srv.services.get(srv.state.session, {}).items()}
         q = self.gen.next(offered, st.session == 1 and st.security_access_level is None)
         err = None
+        t0 = time.monotonic()
         try:
-            await self.ecu.request(service.RawRequest(q))
+            await asyncio.wait_for(self.ecu.request(service.RawRequest(q)), dh.GUARD_S)
         except Exception as e:  # noqa: BLE001
             err = type(e).__name__
+            if time.monotonic() - t0 >= dh.GUARD_S:
+                raise RuntimeError(f"harness: ECU.request({q.hex()}) did not return within {dh.GUARD_S:.0f} s wall clock") from e
         assert self.tr.log[-1][0] == q
         delivered = self.tr.log[-1][1]
         reply = delivered[0] if delivered else None
@@ -314,11 +360,25 @@ class Recorder:
         return True
 
     async def finish(self, catch: dh.Catcher) -> None:
-        await asyncio.wait_for(self.handler.disconnect(), 30)
+        if self.handler is None:
+            return
+        handler, self.handler = self.handler, None
+        try:
+            await dh.close_handler(handler)
+        except dh.HandlerStep as e:
+            self.rec.failed = e  # the rows of this recording may or may not be in the file
         self.rec.lost = catch.take_lost()
         if self.script is not None:
             self.rec.info["fallbacks"] = self.script.fallbacks
             self.rec.info["odd"] = {f"{k:04x}": v for k, v in self.script.odd.items()}
+
+    async def abort(self) -> None:
+        """something went wrong elsewhere: leave no connection (and no worker thread) behind"""
+        if self.handler is not None:
+            handler, self.handler = self.handler, None
+            await dh.force_close(handler)
+        if self.driver is not None:
+            self.driver = None
 
 
 # ---- replay --------------------------------------------------------------------------------------------
@@ -330,17 +390,23 @@ async def replay_recording(path: Path, name: str | None, props: dict[str, Any] |
     server = DBUDSServer(path, name, props, DBUDSServer.Behavior())
     transport = UDSServerTransport(server, TargetURI("tcp-lines://127.0.0.1:1"))
     out: list[tuple[Any, dict[str, Any]]] = []
-    await server.setup()
     try:
+        await asyncio.wait_for(server.setup(), dh.GUARD_S)
         for q in requests:
             try:
-                r, _ = await transport.handle_request(q)
+                r, _ = await asyncio.wait_for(transport.handle_request(q), dh.GUARD_S)  # an expired guard is judged like an exception: no answer
             except Exception as e:  # noqa: BLE001
                 out.append((e, dict(server.state.__dict__)))
                 break
             out.append((r, dict(server.state.__dict__)))
     finally:
-        await server.teardown()
+        conn = server.connection
+        try:
+            await asyncio.wait_for(server.teardown(), dh.GUARD_S)
+        except BaseException:
+            if conn is not None:
+                conn.stop()  # no worker thread may outlive the shard
+            raise
     return out
 
 
@@ -400,9 +466,21 @@ def judge(ctx: Any, rec: Recording, rows: list[dict[str, Any]], out: list[tuple[
                 cause = "another-rows-reply"
             if selector == "string-properties" and got is None and all(o[0] is None for o in out):
                 cause = "string-property-selects-nothing"
+            detail = {"request": q, "recorded": want, "replayed": got, "row_response_pdu": row["response_pdu"] if row else None, "rows": len(rows), "warnings": rec.lost[:3]}
+            misattached = rec.attached_url != rec.target
+            if selector in ("name", "name+properties") and (misattached or rec.foreign_runs):
+                # the join scan_run -> address -> ecu leads elsewhere: the file attaches this run to another address row and/or another ECU's run to this one
+                existed = (misattached and rec.address_situation() == "address-row-already-exists") or any(sit == "address-row-already-exists" for _, sit in rec.foreign_runs)
+                ctx.violation(f"replay/wrong-recording-selected/by-ecu-name/{'address-row-already-exists' if existed else 'new-address-row'}",
+                              "selected by ECU name the virtual ECU does not replay this ECU's recording: DBHandler.insert_scan_run attached a scan run to the address row of "
+                              "another url, so the name selects another ECU's rows (or none)",
+                              witness(i, {**detail, "difference": cause, "target": rec.target, "scan_run": rec.scan_run, "scan_run_points_to_address_of_url": rec.attached_url,
+                                          "address_row_before_insert_scan_run": rec.address_before,
+                                          "scan_runs_of_other_targets_attached_to_this_address": [r for r, _ in rec.foreign_runs]}))
+                held = False
+                break
             ctx.violation(f"replay/reply-differs/{cause}/select-{selector}" if cause != "string-property-selects-nothing" else f"replay/reply-differs/{cause}",
-                          "the replayed reply differs from the recorded bytes although both state trackers agreed before this request",
-                          witness(i, {"request": q, "recorded": want, "replayed": got, "row_response_pdu": row["response_pdu"] if row else None, "rows": len(rows), "warnings": rec.lost[:3]}))
+                          "the replayed reply differs from the recorded bytes although both state trackers agreed before this request", witness(i, detail))
             held = False
             break
         if sstate != cstate:
@@ -493,28 +571,92 @@ async def one_database(ctx: Any, family: str, hseed: str, path: Path, catch: dh.
         # recordings that share the history seed ask (mostly) the same questions of different ECUs
         rseed = f"{hseed}/req" if (share and not same_ecu) else f"{hseed}/req/{j}"
         recorders.append(Recorder(rec, path, rseed, family, kind, clean, length, pool_seed=f"{hseed}/pool" if same_ecu else None))
+    # second layout stream (own generator: the layouts drawn above stay what they were)
+    rng2 = random.Random(hseed + "/layout2")
+    discovery = family == "multi" and rng2.random() < 0.5  # address rows exist up front and carry their ECU names before any recording
+    label_between = same_ecu and not discovery and not interleaved and rng2.random() < 0.5
+    extra_urls = [f"vf://c12/{hseed}/other{k}" for k in range(rng2.choice([0, 0, 1, 2]))] if discovery else []
+    labelled: set[str] = set()
+
+    def label(name: str, url: str) -> None:
+        # ECU names: gallia has no writer for the ecu table; a user fills it in with SQL
+        if name in labelled:
+            return
+        labelled.add(name)
+        dh.sql(path, "INSERT INTO ecu(name, oem, manufacturer) VALUES (?, 'default', 'vf')", (name,))
+        dh.sql(path, "UPDATE address SET ecu = (SELECT id FROM ecu WHERE name = ?) WHERE url = ?", (name, url))
+
+    def reach_address(rec: Recording) -> None:
+        a = rec.address_before
+        if a is None or not a["exists"]:
+            if a is not None:
+                ctx.reach("db.scan-run-starts.new-address-row")
+            return
+        ctx.reach("db.scan-run-starts.address-row-already-exists")
+        if a["earlier_scan_runs"] > 0:
+            ctx.reach("db.scan-run-starts.address-row-already-exists.same-url-recorded-before")
+        if a["ecu_label"] is not None and a["earlier_scan_runs"] == 0:
+            ctx.reach("db.scan-run-starts.address-row-already-exists.from-discovery-run-labelled-up-front")
+
     catch.take_lost()
-    if interleaved:
+    try:
+        if discovery:
+            urls = sorted({r.target for r in recs}) + extra_urls
+            rng2.shuffle(urls)
+            await dh.open_discovery(path, urls, script="vf.c12.discover")
+            for rec in recs:
+                label(rec.name, rec.target)
+            for k, u in enumerate(extra_urls):
+                label(f"OTHER-{k}-{zlib.crc32(hseed.encode()) % 1000}", u)
+            ctx.reach("db.addresses-from-discovery-run-labelled-up-front")
+        if interleaved:
+            for r in recorders:
+                await r.start()
+                reach_address(r.rec)
+            live = list(recorders)
+            while live:
+                r = rng.choice(live)
+                if not await r.step():
+                    live.remove(r)
+            for r in recorders:
+                await r.finish(catch)
+            ctx.reach("db.interleaved-recordings")
+        else:
+            for n, r in enumerate(recorders):
+                await r.start()
+                reach_address(r.rec)
+                while await r.step():
+                    pass
+                await r.finish(catch)
+                if label_between and n == 0:
+                    label(r.rec.name, r.rec.target)
+    finally:
         for r in recorders:
-            await r.start()
-        live = list(recorders)
-        while live:
-            r = rng.choice(live)
-            if not await r.step():
-                live.remove(r)
-        for r in recorders:
-            await r.finish(catch)
-        ctx.reach("db.interleaved-recordings")
-    else:
-        for r in recorders:
-            await r.start()
-            while await r.step():
-                pass
-            await r.finish(catch)
-    # ECU names: gallia has no writer for the ecu table; a user fills it in with SQL
-    for rec in recs[:1] if same_ecu else recs:
-        dh.sql(path, "INSERT INTO ecu(name, oem, manufacturer) VALUES (?, 'default', 'vf')", (rec.name,))
-        dh.sql(path, "UPDATE address SET ecu = (SELECT id FROM ecu WHERE name = ?) WHERE url = ?", (rec.name, rec.target))
+            await r.abort()
+    for rec in recs:
+        label(rec.name, rec.target)
+    # where gallia attached the scan runs (diagnosis only; the verdict comes from the replayed bytes)
+    by_run = {row[0]: row[1] for row in dh.sql(path, "SELECT s.id, a.url FROM scan_run s LEFT JOIN address a ON s.address = a.id")}
+    for rec in recs:
+        rec.attached_url = by_run.get(rec.scan_run) if rec.scan_run is not None else None
+    for rec in recs:
+        rec.foreign_runs = [(o.scan_run, o.address_situation()) for o in recs if o.scan_run is not None and o.target != rec.target and o.attached_url == rec.target]
+    # a recording gallia's database code refused is an observation about the property, not about the harness
+    for j, rec in enumerate(recs):
+        if rec.failed is None:
+            continue
+        e = rec.failed
+        what = {"family": family, "hseed": hseed, "recordings": nrec, "interleaved": interleaved, "same_ecu_twice": same_ecu, "discovery_run_first": discovery,
+                "recording": j, "ecu_name": rec.name, "target": rec.target, "step": f"DBHandler.{e.step}", "error": e.error,
+                "address_row_before_insert_scan_run": rec.address_before, "first_handler_on_the_file": rec.first_on_file,
+                "earlier_recordings_in_this_file": [{"ecu_name": o.name, "target": o.target, "scan_run": o.scan_run} for o in recs[:j]]}
+        if e.step == "insert_scan_run" and e.kind == "raises":
+            ctx.violation(f"record/scan-run-not-recorded/{rec.address_situation()}",
+                          "DBHandler.insert_scan_run raises for a recording into a database that may already hold runs / address rows (UDSScanner.setup only warns and "
+                          "goes on): no scan_run row, so none of the exchanges of this run is recorded and there is nothing to replay", what)
+        else:
+            ctx.violation(f"record/handler-{e.kind}/{e.step}" + ("" if rec.first_on_file else "/database-holds-earlier-runs"),
+                          "a DBHandler step of the recording run raises or does not return: the recording is not (completely) in the database", what)
     if same_ecu:
         ctx.reach("db.same-ecu-recorded-twice")
     if nrec > 1:
@@ -526,6 +668,9 @@ async def one_database(ctx: Any, family: str, hseed: str, path: Path, catch: dh.
             ctx.reach("db.other-recording-shares-requests")
     ctx.reach(f"family.{family}")
     for j, rec in enumerate(recs):
+        if rec.failed is not None or rec.scan_run is None:
+            ctx.reach("recordings.refused-by-the-database-handler")
+            continue  # nothing (reliable) was recorded: a replay difference would only be a consequence
         rows = dh.read_rows(path, rec.scan_run)
         nontrivial = survey(ctx, rec)
         if rec.info.get("fallbacks"):
@@ -536,8 +681,8 @@ async def one_database(ctx: Any, family: str, hseed: str, path: Path, catch: dh.
                 ctx.reach("scripted.malformed-reply")
             if family == "scripted" and k == "mismatching-reply":
                 ctx.reach("scripted.mismatching-reply")
-        case = {"family": family, "hseed": hseed, "recordings": nrec, "interleaved": interleaved, "same_ecu_twice": same_ecu, "recording": j, "model": rec.model_id,
-                "length": len(rec.requests), "nontrivial": nontrivial}
+        case = {"family": family, "hseed": hseed, "recordings": nrec, "interleaved": interleaved, "same_ecu_twice": same_ecu, "discovery_run_first": discovery,
+                "recording": j, "model": rec.model_id, "length": len(rec.requests), "nontrivial": nontrivial}
         selectors: list[tuple[str, str | None, dict[str, Any] | None]] = []
         if nrec == 1:
             selectors.append(("none", None, None))
@@ -547,6 +692,15 @@ async def one_database(ctx: Any, family: str, hseed: str, path: Path, catch: dh.
             extra = rng.choice(["name", "int-properties", "string-properties", "name+properties"])
         if extra and extra != selectors[0][0]:
             selectors.append((extra, None, None))
+        if nrec > 1 and not any(sel in ("name", "name+properties") for sel, _, _ in selectors):
+            selectors.append(("name", None, None))  # several recordings in one file: the scan_run -> address -> ecu join is always exercised
+        by_name = [sel for sel, _, _ in selectors if sel in ("name", "name+properties")]
+        if by_name and rec.address_before is not None and rec.address_before["exists"]:
+            ctx.reach("replay-by-name.address-row-existed-before-scan-run")
+            if rec.address_before["earlier_scan_runs"] > 0:
+                ctx.reach("replay-by-name.same-url-recorded-before")
+            elif rec.address_before["ecu_label"] is not None:
+                ctx.reach("replay-by-name.address-from-discovery-run-labelled-up-front")
         for sel, _, _ in selectors:
             name = rec.name if sel in ("name", "name+properties") else None
             props: dict[str, Any] | None = None
@@ -579,14 +733,22 @@ async def arun(ctx: Any, params: dict[str, Any], only: str | None = None) -> Non
                     p.unlink()
 
 
-def run(ctx: Any, params: dict[str, Any]) -> None:
+def _run(ctx: Any, params: dict[str, Any], only: str | None) -> None:
     import gallia.command  # noqa: F401
 
-    asyncio.run(arun(ctx, params))
+    # every await on gallia's database code has its own guard; this one is for whatever nobody thought of (and for the interpreter
+    # shutdown, which joins aiosqlite's non-daemon worker threads): the shard ends on its own long before the runner's watchdog
+    dh.arm_exit_watchdog(min(max(ctx.time_left(), 0.0), 3000.0) + 240.0)
+    try:
+        asyncio.run(arun(ctx, params, only))
+    finally:
+        dh.stop_leaked_connections()
+
+
+def run(ctx: Any, params: dict[str, Any]) -> None:
+    _run(ctx, params, None)
 
 
 def replay(ctx: Any, witness: dict[str, Any]) -> None:
-    import gallia.command  # noqa: F401
-
-    asyncio.run(arun(ctx, {"family": witness["family"]}, only=witness["hseed"]))
+    _run(ctx, {"family": witness["family"]}, witness["hseed"])
 
